@@ -256,6 +256,7 @@ protected:
 		mutable _Xml* parent;
 		_Xml() : parent(NULL) {}
 		_Xml(const String& t) : tag(t), parent(NULL) {}
+		~_Xml();
 		virtual const String& text() const;
 		virtual bool isText() const { return false; }
 		virtual _Xml* clone(bool detach = true) const;
@@ -263,6 +264,18 @@ protected:
 
 	_Xml* _() { return (_Xml*)_p; }
 	const _Xml* _() const { return (_Xml*)_p; }
+
+	void adopt()
+	{
+		foreach(Xml& e, _()->children)
+			e._()->parent = _();
+	}
+
+	void release(const Xml& e)
+	{
+		if (e._()->parent == _())
+			e._()->parent = NULL;
+	}
 
 	ASL_EXPLICIT operator int() const;
 public:
@@ -300,12 +313,14 @@ public:
 	ASL_EXPLICIT  Xml(const String& tag, const Array<Xml>& elems) : NodeBase(new _Xml(tag))
 	{
 		_()->children = elems;
+		adopt();
 	}
 	
 	ASL_EXPLICIT  Xml(const String& tag, const Map<>& attrs, const Array<Xml>& elems) : NodeBase(new _Xml(tag))
 	{
 		_()->attribs = attrs;
 		_()->children = elems;
+		adopt();
 	}
 
 	/**
@@ -443,8 +458,10 @@ public:
 	*/
 	void remove(int i)
 	{
-		if (i>=0 && i<_()->children.length())
+		if (i >= 0 && i < _()->children.length()) {
+			release(_()->children[i]);
 			_()->children.remove(i);
+		}
 	}
 
 	/**
@@ -525,7 +542,12 @@ public:
 	/**
 	Removes all children
 	*/
-	void clear() { _()->children.clear(); }
+	void clear()
+	{
+		foreach(Xml& e, _()->children)
+			release(e);
+		_()->children.clear();
+	}
 
 	/**
 	Appends an element as a child.
